@@ -86,6 +86,31 @@ def make_event(case):
                 got.append([-1, -1])
             shifted.append(got)
         full["shifted"] = shifted
+        # a visitor that raises at its k-th callback: the exception reaches the caller, nothing more is called, and the next
+        # traversal of the same tree is complete again
+        after = []
+        for k in sorted({1, 2, max(1, len(calls) // 2), len(calls)}):
+            seen = []
+
+            def rec_x(node, depth, data, seen=seen, k=k):
+                seen.append([objs.of(node), depth])
+                if len(seen) == k:
+                    raise KeyError("visitor failed")
+                return None
+            try:
+                getattr(root, meth)(rec_x)
+                outcome = "returned"
+            except KeyError:
+                outcome = "raised"
+            except BaseException as e:  # noqa
+                outcome = "other:" + type(e).__name__
+            again = []
+            try:
+                getattr(root, meth)(lambda node, depth, data, again=again: again.append([objs.of(node), depth]))
+            except BaseException:  # noqa
+                again.append([-1, -1])
+            after.append({"k": k, "seen": seen, "outcome": outcome, "again": again})
+        full["raising"] = after
         n = len(objs)
         for k in list(range(1, n + 1)) + [n + 1]:
             calls_k = []
